@@ -20,14 +20,11 @@ def native_bounds(repo, rep, rule):
     # R-C04-1 must hold for the neighbour-table content ranges
     from . import c04
     scratch = Report("C04-internal")
-    try:
-        stores, count_store = c04.extract_table(cf, scratch)
-        c04.run.__globals__  # noqa
-        sub = Report("C04-internal")
-        _run_c04_table(repo, sub)
-        neigh_ok = not [f for f in sub.findings if f.rule == 'R-C04-1']
-    except AnalysisError:
-        neigh_ok = False
+    # an AnalysisError here (anchor of the neighbour-table proof vanished) makes C20 analysis-broken too, not a violation
+    stores, count_store = c04.extract_table(cf, scratch)
+    sub = Report("C04-internal")
+    _run_c04_table(repo, sub)
+    neigh_ok = not [f for f in sub.findings if f.rule == 'R-C04-1']
     an = Analyzer(cf, neigh_ok)
     sites = access_sites(cf)
     rep.floor(rule, "array access sites in specpart.c", len(sites), 90)
